@@ -236,6 +236,7 @@ type Op struct {
 	Src   []*NSrc
 	SrcKV []NKV
 	Typed bool
+	Bad   any // the unsupported value of a ...Bad operation
 	Derived bool // NewList / NewObject: the container is a derived structure (a user type embedding List / Object, registered with Init); the model does not distinguish
 }
 
@@ -261,7 +262,20 @@ func coqKeys(ks []string) string {
 	return coqList(s)
 }
 
+// A value of an unsupported Go type is not expressible as an operand of the model. An insertion that is REJECTED (parseVal panics
+// before anything is stored) has, in the model, the effect of an operation that panics without touching the state; that is what is
+// emitted for the "...Bad" operations (the readable program line shows the real call).
+var badValues = []any{struct{}{}, struct{ X int }{1}, make(chan int), [2]int{1, 2}, []int8{1}, map[int]any{1: 2}, complex(1, 2), new(int), func() {}, uintptr(3)}
+
 func (o *Op) coq() string {
+	switch o.Name {
+	case "LAddBad", "LInsertBad", "LReplaceBad":
+		return fmt.Sprintf("(Base (LGet %d (-1)))", o.R)
+	case "OSetBad":
+		return fmt.Sprintf("(Base (OGet %d %s))", o.R, coqBytes("\x00\x00no-such-key"))
+	case "NewListBad", "NewObjectBad":
+		return "(Base (NewListOf (Lit HNil) (-1)))"
+	}
 	if isXOp(o.Name) {
 		return o.xcoq()
 	}
@@ -321,6 +335,16 @@ func (o *Op) coqBase() string {
 }
 
 func (o *Op) String() string {
+	switch o.Name {
+	case "LAddBad":
+		return fmt.Sprintf("Add v%d (a value of type %T)", o.R, o.Bad)
+	case "LInsertBad", "LReplaceBad":
+		return fmt.Sprintf("%s v%d [%d] (a value of type %T)", strings.TrimSuffix(o.Name[1:], "Bad"), o.R, o.I, o.Bad)
+	case "OSetBad":
+		return fmt.Sprintf("Set v%d %q (a value of type %T)", o.R, o.K, o.Bad)
+	case "NewListBad", "NewObjectBad":
+		return fmt.Sprintf("%s(a value of type %T)", strings.TrimSuffix(o.Name, "Bad"), o.Bad)
+	}
 	if isXOp(o.Name) {
 		return o.xString()
 	}
@@ -691,6 +715,18 @@ func (m *Machine) execNow(o *Op) (outcome string) {
 			case at.Object:
 				out = "(OKind " + kindCoq(c.TypeOfTF(o.TF)) + ")"
 			}
+		case "LAddBad":
+			m.list(o.R).Add(o.Bad)
+		case "LInsertBad":
+			m.list(o.R).Insert(int(o.I), o.Bad)
+		case "LReplaceBad":
+			m.list(o.R).Replace(int(o.I), o.Bad)
+		case "OSetBad":
+			m.object(o.R).Set(o.K, o.Bad)
+		case "NewListBad":
+			at.NewList(o.Bad)
+		case "NewObjectBad":
+			at.NewObject("k", o.Bad)
 		default:
 			xout, result, hasResult = m.execX(o)
 		}
@@ -829,7 +865,8 @@ func xOutcome(oc string) string {
 
 func singleIndexOp(o *Op) bool {
 	switch o.Name {
-	case "LInsert", "LReplace", "LPop", "LGet", "LGetTyped", "LSubList", "OGet", "OGetTyped", "OPluck", "LSort":
+	case "LInsert", "LReplace", "LPop", "LGet", "LGetTyped", "LSubList", "OGet", "OGetTyped", "OPluck", "LSort",
+		"LAddBad", "LInsertBad", "LReplaceBad", "OSetBad", "NewListBad", "NewObjectBad":
 		return true
 	case "LDelete":
 		return len(o.Idxs) == 1
@@ -850,7 +887,7 @@ func pureOp(o *Op) bool {
 	return false
 }
 
-var heapScalars = []*V{vnil(), vbool(true), vbool(false), vint(0), vint(1), vint(-7), vint(42), vfloat(1.5), vfloat(0), vfloat(math.Copysign(0, -1)), vfloat(1), vstr(""), vstr("a"), vstr("b"), vstr("xyz"), vint(math.MaxInt64), vfloat(math.NaN())}
+var heapScalars = []*V{vnil(), vbool(true), vbool(false), vint(0), vint(1), vint(-7), vint(42), vfloat(1.5), vfloat(0), vfloat(math.Copysign(0, -1)), vfloat(1), vstr(""), vstr("a"), vstr("b"), vstr("xyz"), vint(math.MaxInt64), vfloat(math.NaN()), vint(math.MinInt64), vstr("NaN"), vstr("null")}
 
 func (p *Prog) scalar() Operand {
 	if p.scalars != nil {
@@ -912,7 +949,7 @@ func (p *Prog) boundaryIndex(n int) int64 {
 	return pickOf(p.r, cands)
 }
 
-var heapKeys = []string{"", "a", "b", "c", "a.b", "#0", ".x", "\"q\"", "é", "k", "a ", " a", "k\n", "A", "K", "e\u0301", "\u00c9"}
+var heapKeys = []string{"", "a", "b", "c", "a.b", "#0", ".x", "\"q\"", "é", "k", "a ", " a", "k\n", "A", "K", "e\u0301", "\u00c9", "dir\\", "x\\\\"}
 
 // keys that are not well-formed UTF-8 (Go strings are byte strings; a map key is compared bytewise): only in the profiles that
 // never serialise (String() replaces ill-formed bytes, which the data comparison of the x-streams would report)
@@ -1212,6 +1249,10 @@ func (p *Prog) anyOp(listBias float64) {
 		p.newContainer()
 		return
 	}
+	if p.r.chance(0.025) {
+		p.rejectedInsertion()
+		return
+	}
 	if len(ls) > 0 && (len(os) == 0 || p.r.chance(listBias)) {
 		p.listOp(pickOf(p.r, ls))
 	} else if len(os) > 0 {
@@ -1359,7 +1400,7 @@ func (p *Prog) corruptPath(s string) string {
 	}
 }
 
-var tfKeys = []string{"a", "b", "c", "k", "é", "zz", "a ", " b", "k\t"}
+var tfKeys = []string{"a", "b", "c", "k", "é", "zz", "a ", " b", "k\t", "0", "12", "dir\\", "-1", "0x1"}
 
 // a well-formed path (non-empty keys free of '.' and '#', canonical non-negative decimal indices) starting at container x:
 // follows existing structure for a while, then may branch into new territory
@@ -1459,6 +1500,39 @@ func heapProgramBody(p *Prog, r *R, prof string) {
 			p.do(&Op{Name: "NewListOf", Vals: []Operand{p.scalar()}, I: int64(pickOf(r, stressSizes))})
 			long := len(p.m.vars) - 1
 			p.do(&Op{Name: "LAdd", R: long, Vals: []Operand{p.value(long), p.scalar()}})
+		} else if r.chance(0.03) {
+			// a large list shrunk step by step with multi-index deletes, pops and single deletes (an implementation that gives memory
+			// back does so at some ratio of length to capacity; the call that crosses it is the interesting one)
+			n0 := pickOf(r, []int{256, 300, 512})
+			p.do(&Op{Name: "NewListOf", Vals: []Operand{p.scalar()}, I: int64(n0)})
+			long := len(p.m.vars) - 1
+			p.do(&Op{Name: "LReplace", R: long, I: int64(n0 - 1), Vals: []Operand{{V: vstr("last")}}})
+			for !p.broken {
+				n := p.m.list(long).Count()
+				if n < n0/9 {
+					break
+				}
+				switch r.Intn(5) {
+				case 0:
+					p.do(&Op{Name: "LPop", R: long})
+				case 1:
+					p.do(&Op{Name: "LDelete", R: long, Idxs: []int64{int64(r.Intn(n))}})
+				default:
+					k := 2 + r.Intn(4)
+					if r.chance(0.2) {
+						k = 20 + r.Intn(30)
+					}
+					if k > n {
+						k = n
+					}
+					var idx []int64
+					for _, x := range r.Perm(n)[:k] {
+						idx = append(idx, int64(x))
+					}
+					p.do(&Op{Name: "LDelete", R: long, Idxs: idx})
+				}
+			}
+			nops += len(p.ops)
 		}
 		for len(p.ops) < nops && !p.broken {
 			if r.chance(0.08) {
